@@ -161,29 +161,38 @@ def insertByKey (x : List Nat × Int) : List (List Nat × Int) → List (List Na
   | [] => [x]
   | y :: ys => if bytesLt x.1 y.1 then x :: y :: ys else y :: insertByKey x ys
 
-abbrev MSlab := Shard.Shards (List Nat) Int
+/-- The driver keeps the shard array as DATA (one list per shard) and hands it to the model as the
+    function `Shard.Shards` for one operation at a time: a function-typed value is re-evaluated on
+    every application by compiled code, which would make nested `reload`s exponential. -/
+abbrev MSlab := List (List (List Nat × Int))
 
-def showMSlab (s : MSlab) : String :=
+def toShards (t : MSlab) : Shard.Shards (List Nat) Int := fun i => t.getD i []
+
+def ofShards (s : Shard.Shards (List Nat) Int) : MSlab := (List.range Shard.shardCount).map s
+
+def showMSlab (t : MSlab) : String :=
+  let s := toShards t
   let es := (Shard.entries Shard.shardCount s).foldr insertByKey []
   let item := fun (p : List Nat × Int) =>
     hex p.1 ++ "=" ++ (match Shard.get Shard.shardCount Shard.firstByte s p.1 with
       | some v => toString v | none => "?")
   ",".intercalate (es.map item) ++ s!" #{es.length}"
 
-def mslabStep (s : MSlab) (ws : List String) : Option MSlab :=
+def mslabStep (t : MSlab) (ws : List String) : Option MSlab :=
+  let s := toShards t
   match ws with
-  | ["reset"] => some Shard.empty
+  | ["reset"] => some []
   | ["set", k, v] => match unhex k, v.toInt? with
-      | some k, some v => some (Shard.insert Shard.shardCount Shard.firstByte s (k, v)) | _, _ => none
-  | ["del", k] => (unhex k).map (Shard.delete Shard.shardCount Shard.firstByte s)
-  | ["reload"] => some (Shard.reload Shard.shardCount Shard.firstByte s)
+      | some k, some v => some (ofShards (Shard.insert Shard.shardCount Shard.firstByte s (k, v))) | _, _ => none
+  | ["del", k] => (unhex k).map fun k => ofShards (Shard.delete Shard.shardCount Shard.firstByte s k)
+  | ["reload"] => some (ofShards (Shard.reload Shard.shardCount Shard.firstByte s))
   | _ => none
 
 structure DState where
   db : Db := {}
   snaps : List Store := []     -- byte strings kept OUTSIDE the database (`snap` / `restore i`)
   slab : Slab.Slab := {}
-  mslab : MSlab := Shard.empty
+  mslab : MSlab := []
 
 /-- driver state: the database, byte strings kept OUTSIDE it (`snap` / `restore i`:
     bare `snapshot_bytes` / `restore_from_bytes`, no checkpoint manager), and a bare embedding slab -/
